@@ -13,8 +13,8 @@ Oracle (only what the statement says; weaker reading where it is loose):
   * its content equals the content collection held, up to ONE trailing empty line in either
     direction (lists of lines: a == b, a + [""] == b or a == b + [""]; raw bytes: the same with
     b"\\n").  "up to one trailing empty line" is read symmetrically - the weaker reading;
-  * cmd and args are equal.  args are compared modulo JSON's sequence type (a tuple comes back as a
-    list - representation, not content).  cmd is NOT compared for ContainerFileProvider: its
+  * cmd and args are equal.  args are compared exactly (0, False, "", [] and None are five different
+    values) except for JSON's sequence type (a tuple comes back as a list - representation, not content).  cmd is NOT compared for ContainerFileProvider: its
     serializer documents a *file* (relative_path, image, engine, container_id); the internal
     "<engine> exec <id> cat <path>" string is not part of the persisted document;
   * relative_path equals the location the serializer returned in the metadata document;
@@ -44,7 +44,9 @@ LEVEL = "fault_enumeration"
 RULE = ("A: all line sequences of length <= L over 11 line tokens x 14 (provider kind, save-as) combinations "
         "(raw files and really executed commands: length <= 2), plus all arrangements without repetition of "
         "1..M element tokens (one of them with empty content, i.e. failing at serialisation) x 13 multi-output "
-        "(kind, save-as) combinations x {serial, thread pool}, plus failed components; ~50 generated specs share one archive, "
+        "(kind, save-as) combinations x {serial, through a pool stand-in for EVERY completion order of the pool.map tasks "
+        "(all permutations for <= 3 tasks, 4 for 4 tasks; recorded in the case)}, plus falsy / tuple / empty-tuple command "
+        "arguments (foreach_execute, container_execute, command_with_args), plus failed components; ~50 generated specs share one archive, "
         "every violating spec is re-executed alone in its own archive before it is reported. Non-trivial = at least one "
         "result was persisted AND loaded back (failed component: its document carries >= 1 error). "
         "B: every subset of the 3 metadata entries x every corruption kind x every order (6) in which hydrate meets the "
@@ -53,6 +55,10 @@ RULE = ("A: all line sequences of length <= L over 11 line tokens x 14 (provider
 ASSUMPTIONS = [
     "command output is supplied by a recording HostContext.check_output (the command is not executed), except for the "
     "cmd_real kind which really runs /bin/cat; container engines are spelled /usr/bin/env because podman/docker do not exist here",
+    "the executor handed to Hydration is a deterministic single-threaded stand-in (harness.c11_build.OrderedPool) that runs the "
+    "tasks of pool.map in a descriptor-chosen order and returns results in input order like Executor.map; it covers every "
+    "completion order, not data races between concurrently running serializers; a real ThreadPoolExecutor is not used "
+    "(its completion order is timing)",
     "no cleaner, no filters, no deny list are configured (C06-C10 cover those)",
     "the host context is seeded into the hydrated broker before the second dr.run so that a loaded implementation could "
     "execute if the engine tried to (otherwise that clause would be vacuous)",
@@ -92,7 +98,7 @@ def spec_single(kind, mode, lines):
     return {"part": "A", "kind": kind, "save_as": mode, "elems": [{"n": "f", "lines": list(lines)}]}
 
 
-def spec_multi(kind, mode, arrangement, pool):
+def spec_multi(kind, mode, arrangement, exec_perm=None):
     idx = list(arrangement)
     if kind == "m_glob":
         # glob_file yields in sorted path order: the arrangement permutes which content sits at which sorted position
@@ -101,9 +107,19 @@ def spec_multi(kind, mode, arrangement, pool):
     else:
         elems = [{"n": ELEMS[i][0], "lines": list(ELEMS[i][1])} for i in idx]
     s = {"part": "A", "kind": kind, "save_as": mode, "elems": elems}
-    if pool:
+    if exec_perm is not None:
+        # persisted through a pool: the tasks of the one pool.map call complete in this order (submission indices)
         s["pool"] = True
+        s["exec"] = list(exec_perm)
     return s
+
+
+def exec_perms(n):
+    """Completion orders enumerated for a pool.map over n tasks: all for n <= 3, four characteristic ones above."""
+    if n <= 3:
+        return list(itertools.permutations(range(n)))
+    ident = tuple(range(n))
+    return [ident, ident[::-1], ident[1:] + ident[:1], (0, 2, 1) + ident[3:]]
 
 
 def arrangements(tier):
@@ -112,6 +128,35 @@ def arrangements(tier):
     for n in range(1, m + 1):
         for p in itertools.permutations(pool, n):
             yield p
+
+
+ARG_POOL = [0, 1, "", 2]          # what an argument provider may yield: 0 and "" are falsy
+ARG_LINES = {"0": ["zero"], "1": ["one", ""], "": ["empty", " x"], "2": ["two"]}
+
+
+def arg_specs():
+    """Commands with arguments: every arrangement of 1..3 of the argument values {0, 1, "", 2} for foreach_execute
+    (serial and through the pool in submission order) and container_execute, tuple arguments with falsy members,
+    the empty tuple (template without placeholder), and command_with_args over a str / "" / tuple / () provider."""
+    out = []
+    for n in range(1, 4):
+        for arr in itertools.permutations(range(len(ARG_POOL)), n):
+            elems = [{"n": "v%d" % i, "arg": ARG_POOL[i], "lines": ARG_LINES[str(ARG_POOL[i])]} for i in arr]
+            out.append({"part": "A", "kind": "m_cmd", "save_as": "none", "elems": elems})
+            out.append({"part": "A", "kind": "ccmd", "save_as": "none", "elems": elems})
+            out.append({"part": "A", "kind": "m_cmd", "save_as": "none", "elems": elems, "pool": True, "exec": list(range(n))})
+    tuples = [[0, "y"], ["", 1], [1, "x"], [0, 0]]      # distinct commands even after word splitting
+    for n in range(1, 3):
+        for arr in itertools.permutations(range(len(tuples)), n):
+            out.append({"part": "A", "kind": "m_cmd2", "save_as": "none",
+                        "elems": [{"n": "t%d" % i, "arg": tuples[i], "lines": ["tuple %d" % i]} for i in arr]})
+    out.append({"part": "A", "kind": "m_cmd", "save_as": "none", "placeholders": 0,
+                "elems": [{"n": "none", "arg": [], "lines": ["no argument"]}]})
+    for mode in ("none", "rename"):
+        for arg, nph in (("x", 1), ("", 1), (["x", ""], 2), ([], 0)):
+            out.append({"part": "A", "kind": "cmd_args", "save_as": mode, "placeholders": nph,
+                        "elems": [{"n": "f", "arg": arg, "lines": ["with args", ""]}]})
+    return out
 
 
 def sweep_contents(unit):
@@ -135,6 +180,7 @@ def units(tier, seed):
         for pool in (False, True):
             us.append({"part": "A", "sub": "order", "kind": kind, "save_as": mode, "pool": pool})
     us.append({"part": "A", "sub": "fail"})
+    us.append({"part": "A", "sub": "args"})
     for subset in enumx.subsets(range(3)):
         us.append({"part": "B", "sub": "kinds", "subset": list(subset)})
     lens = template_lengths()
@@ -197,7 +243,15 @@ def show(content):
 
 
 def norm_args(a):
-    return list(a) if isinstance(a, tuple) else a
+    """args in the form JSON gives them back: tuples (at any depth) become lists; nothing else is identified -
+    0, False, "", [] and None stay five different values."""
+    if isinstance(a, (tuple, list)):
+        return [norm_args(x) for x in a]
+    return a
+
+
+def same_args(a, b):
+    return json.dumps(norm_args(a), sort_keys=True, default=repr) == json.dumps(norm_args(b), sort_keys=True, default=repr)
 
 
 def content_features(spec, orig):
@@ -216,6 +270,11 @@ def content_features(spec, orig):
     feats["trailing_empty_lines"] = n
     if spec.get("pool"):
         feats["pool"] = True
+        ex = list(_exec_of(spec))
+        feats["pool_completion_order_differs"] = ex != sorted(ex)
+    args = [el["arg"] for el in spec.get("elems", []) if "arg" in el]
+    if args:
+        feats["falsy_arg"] = any(not a for a in args)
     return feats
 
 
@@ -275,8 +334,8 @@ def check_entry(spec, orig, doc, present, value, errors_expected):
         info["rels"].add(relation(c0, got))
         if spec["kind"] != "cfile" and p.cmd != cmd0:
             v.append(("roundtrip:cmd", cmd0, p.cmd))
-        if norm_args(p.args) != norm_args(args0):
-            v.append(("roundtrip:args", norm_args(args0), norm_args(p.args)))
+        if not same_args(p.args, args0):
+            v.append(("roundtrip:args", {"args": norm_args(args0)}, {"args": norm_args(p.args)}))
         if k < len(persisted):
             try:
                 loc = persisted[k]["object"]["relative_path"]
@@ -291,15 +350,13 @@ def _errors_expected(broker, point):
     return [broker.tracebacks.get(ex) for ex in broker.exceptions.get(point, [])]
 
 
-def run_specs(specs, pool=False):
-    """Collects and loads one archive holding `specs`. Returns [(violations, info)] per spec."""
+def run_specs(specs, exec_perm=None):
+    """Collects and loads one archive holding `specs`. Returns [(violations, info)] per spec.
+    exec_perm None: serial persister; otherwise Hydration gets the deterministic pool stand-in with that completion order."""
     e = B.env()
     out = [([], {"persisted": 0, "loaded": 0, "rels": set(), "errors": 0}) for _ in specs]
-    executor = None
     with tmp.scratch("c11a") as top:
-        if pool:
-            from concurrent.futures import ThreadPoolExecutor
-            executor = ThreadPoolExecutor(max_workers=2, thread_name_prefix="verif-c11")
+        executor = B.OrderedPool(exec_perm) if exec_perm is not None else None
         b = B.build(specs, top, pool=executor)
         try:
             try:
@@ -339,15 +396,19 @@ def run_specs(specs, pool=False):
             return res
         finally:
             B.cleanup(b)
-            if executor is not None:
-                executor.shutdown(wait=True)
+
+
+def _exec_of(spec):
+    if not spec.get("pool"):
+        return None
+    return tuple(spec.get("exec", range(len(spec.get("elems", [])))))
 
 
 def check_case(case):
     """-> [(clause, expected, observed, features)] for one case descriptor (part A spec or part B corruption)."""
     if case.get("part") == "B":
         return check_b([case])[0][0]
-    v, info = run_specs([case], pool=bool(case.get("pool")))[0]
+    v, info = run_specs([case], exec_perm=_exec_of(case))[0]
     f = content_features(case, None)
     return [(c, x, o, f) for c, x, o in v]
 
@@ -378,14 +439,24 @@ def _record(res, spec, v, info, confirm_budget):
             res.violation(c, spec, x, o, f)
 
 
-def run_batches(res, specs, pool=False):
+def run_batches(res, specs):
+    """Specs that share one archive share one Hydration object, hence one pool completion order: group by it."""
     budget = [MAX_CONFIRM_PER_UNIT]
-    for lo in range(0, len(specs), BATCH):
-        batch = specs[lo:lo + BATCH]
-        out = run_specs(batch, pool=pool)
-        res.stat("A_archives")
-        for spec, (v, info) in zip(batch, out):
-            _record(res, spec, v, info, budget)
+    groups = {}
+    for spec in specs:
+        groups.setdefault(_exec_of(spec), []).append(spec)
+    for perm in sorted(groups, key=lambda k: (k is not None, k or ())):
+        group = groups[perm]
+        for lo in range(0, len(group), BATCH):
+            batch = group[lo:lo + BATCH]
+            out = run_specs(batch, exec_perm=perm)
+            res.stat("A_archives")
+            if perm is not None:
+                res.stat("A_specs_persisted_through_pool", len(batch))
+                if list(perm) != sorted(perm):
+                    res.stat("A_specs_pool_completion_order_differs_from_submission", len(batch))
+            for spec, (v, info) in zip(batch, out):
+                _record(res, spec, v, info, budget)
 
 
 def run_unit(unit, tier):
@@ -396,9 +467,15 @@ def run_unit(unit, tier):
             run_batches(res, specs)
             res.maxi("max_lines", unit["len"])
         elif unit["sub"] == "order":
-            specs = [spec_multi(unit["kind"], unit["save_as"], a, unit["pool"]) for a in arrangements(tier)]
-            run_batches(res, specs, pool=unit["pool"])
+            if unit["pool"]:
+                specs = [spec_multi(unit["kind"], unit["save_as"], a, x) for a in arrangements(tier) for x in exec_perms(len(a))]
+            else:
+                specs = [spec_multi(unit["kind"], unit["save_as"], a) for a in arrangements(tier)]
+            run_batches(res, specs)
             res.maxi("max_elements", BOUNDS[tier]["multi_max_elems"])
+        elif unit["sub"] == "args":
+            specs = arg_specs()
+            run_batches(res, specs)
         else:
             specs = [{"part": "A", "kind": "fail", "exc": x, "elems": []} for x in FAILS]
             run_batches(res, specs)
